@@ -60,6 +60,21 @@ impl fmt::Display for Token {
     }
 }
 
+/// Matches the remainder of a comment: everything up to and including the first `*)`.
+/// A comment that is not closed consumes the rest of the input and is an error.
+fn lex_comment(lex: &mut logos::Lexer<TokenType>) -> bool {
+    match lex.remainder().find("*)") {
+        Some(index) => {
+            lex.bump(index + 2);
+            true
+        }
+        None => {
+            lex.bump(lex.remainder().len());
+            false
+        }
+    }
+}
+
 #[derive(Clone, Logos, Debug, PartialEq)]
 pub enum TokenType {
     #[regex(r"\r\n")]
@@ -70,7 +85,7 @@ pub enum TokenType {
     #[regex(r"[ \t]+")]
     Whitespace,
 
-    #[regex(r"\(\*(?:[^*]|\*[^\)])*\*\)", priority = 0)]
+    #[token("(*", lex_comment)]
     // TODO The following is common but not valid. We want to recognize the token
     // so that we can generate meaningful errors.
     #[regex(r"//[^\r\n]*(\r\n|\n)?", priority = 0)]
